@@ -233,6 +233,18 @@ def run(rep, tier, seed, b):
             elif kk.get('all_standard') and kk.get('has_kekule') and im['err'] == 'EncoderError':
                 rep.oracle_failures.append({'clause': 'for the standard aromatic atom kinds the encoder succeeds whenever an alternating assignment exists',
                                             'input': inp, 'impl': im, 'klass': classify(x)})
+    # ---- the internal graph after smiles_to_mol and after kekulize, field by field (orders, counts, subgraph): what EncArom / EncKeep / EncPi are about
+    dj = [(x, False) for x in smis[:1500 if tier == 'quick' else 40000]]
+    try:
+        dres = core.pmap('val_encoder', 'dump_chunk', dj, chunk=100)
+        for r_ in dres:
+            for bd in r_['bad']:
+                rep.disagreements.append({'op': 'internal graph after smiles_to_mol / kekulize', 'input': {'smiles': bd['smiles']},
+                                          'impl': str(bd['impl'])[:400], 'model': str(bd['model'])[:400]})
+        rep.impl_traces += len(dj)
+        rep.extra['internal_graph_dumps_compared'] = len(dj)
+    except Exception as ex:
+        rep.disagreements.append({'op': 'internal graph after smiles_to_mol / kekulize', 'input': {'smiles': dj[0][0] if dj else ''}, 'impl': 'dump failed: %r' % (ex,), 'model': None})
     # ---- acceptance does not depend on the spelling
     for (start, k, tpl) in groups:
         acc = ['ok' in res[start + j]['impl'] for j in range(k)]
